@@ -168,8 +168,10 @@ def gen_regions(rng, bw, tier, small=False):
             cols.append(rng.choice("+-."))
         rows.append(cols)
     final_newline = rng.random() < 0.6
-    text = "\n".join("\t".join(c) for c in rows) + ("\n" if final_newline else "")
-    return dict(ncol=ncol, rows=rows, text=text, profile=profile, final_newline=final_newline, categories=cats)
+    # one region file in seven has DOS line endings: the rows (and the name column) are the same rows
+    eol = "\r\n" if rng.random() < 0.15 else "\n"
+    text = eol.join("\t".join(c) for c in rows) + (eol if final_newline else "")
+    return dict(ncol=ncol, rows=rows, text=text, profile=profile, final_newline=final_newline, categories=cats, crlf=(eol != "\n"))
 
 
 # ------------------------------------------------------------------ build --
@@ -280,7 +282,8 @@ def _avg_case(c, rng, seed, tier, index, cwd):
     c.hash = ct.sha(bw["text"], reg["text"], o)
     c.nontrivial = len(reg["rows"]) >= 2 and not expect_error
     c.tag(mode_tag, "min-max" if minmax else "no-min-max", "style:" + style, "bed_columns=%d" % ncol, "lines:" + reg["profile"],
-          "rows<threads" if len(reg["rows"]) < 16 else "rows>=threads", "final_newline" if reg["final_newline"] else "no_final_newline")
+          "rows<threads" if len(reg["rows"]) < 16 else "rows>=threads", "final_newline" if reg["final_newline"] else "no_final_newline",
+          "line_endings:crlf" if reg.get("crlf") else "line_endings:lf")
     for cat in reg["categories"]:
         c.tag("region:" + cat)
     c.count("region_rows", len(reg["rows"]))
